@@ -2,7 +2,7 @@
 
 from __future__ import annotations
 
-from .. import gen
+from .. import gen, ops as _ops
 from ..monitors import RefreshMonitor
 from . import common
 
@@ -33,14 +33,87 @@ WEIGHTS = {"ctrl": 0.8, "undo": 3, "redo": 3, "paint": 5, "swap": 2.5}
 
 def plan(tier, seed):
     # + the repository's own test-suite, unedited, as one more workload under the same monitor
-    return [common.pytest_spec()] + common.session_plan(PROP, tier, seed, quick=6000, thorough=60000)
+    return [common.pytest_spec(),
+            {"kind": "reentrant", "n": 60 if tier == "quick" else 600,
+             "seed": common.seed_for(PROP, tier, seed, "reentrant")}] + \
+        common.session_plan(PROP, tier, seed, quick=6000, thorough=60000)
 
 
 def run_shard(spec):
     if spec.get("kind") == "pytest":
         return common.run_pytest_shard(spec, PROP)
+    if spec.get("kind") == "reentrant":
+        import random
+
+        acc = common.new_acc()
+        reentrant_listener_cases(random.Random(spec["seed"]), acc, spec["n"])
+        return common.finish_acc(acc)
     return common.run_sessions(spec, PROP, make_monitors, cfg_fn, nsteps=(15, 35),
                                weights=WEIGHTS, refusal_rate=1.5, history_share=0.25)
+
+
+def reentrant_listener_cases(rng, acc, n):
+    """Two listeners on tracks.refresh: the first one reacts to a new node by tagging it
+    (another top-level user action, from inside its callback), the second one only counts.
+    The second listener must hear of every successful top-level action, the nested one
+    included."""
+    import random as _r
+    import warnings
+
+    from funtracks.user_actions import UserAddNode, UserUpdateNodeAttrs
+
+    for _ in range(n):
+        cfg = gen.random_config(rng, seg=False, extras=False)
+        cfg.seed = rng.randrange(1 << 30)
+        tracks, _f, _g = gen.build_tracks(cfg)
+        try:
+            tracks.refresh.disconnect()
+        except Exception:
+            pass
+        heard = []
+
+        def tagger(node=None, tracks=tracks):
+            if node is not None and node in tracks.graph and \
+                    tracks.graph.nodes[node].get("note") != "new":
+                UserUpdateNodeAttrs(tracks, node, {"note": "new"})
+
+        def counter(*a):
+            heard.append(a[0] if a else None)
+
+        tracks.refresh.connect(tagger)
+        tracks.refresh.connect(counter)
+        expected = 0
+        og = _ops.OpGen(cfg, _r.Random(cfg.seed), refusal_rate=0.0)
+        with warnings.catch_warnings():
+            warnings.simplefilter("ignore")
+            for _k in range(rng.randint(2, 5)):
+                op = og.gen_add_node(tracks)
+                if op is None or "omit" in op:
+                    continue
+                attrs = {tracks.features.time_key: op["time"],
+                         tracks.features.tracklet_key: op["track_id"]}
+                pk = tracks.features.position_key
+                if isinstance(pk, list):
+                    attrs.update(dict(zip(pk, op["pos"])))
+                else:
+                    attrs[pk] = list(op["pos"])
+                try:
+                    UserAddNode(tracks, op["node"], attrs, force=True)
+                    expected += 2  # the add and the tagger's attribute update
+                except Exception:
+                    pass
+        acc["evaluations"] += 1
+        acc["counters"]["reentrant-listener-cases"] = \
+            acc["counters"].get("reentrant-listener-cases", 0) + 1
+        if len(heard) != expected:
+            acc["violations"].append({
+                "clause": "emission-count",
+                "what": f"a later listener heard {len(heard)} refreshes {heard} for {expected} "
+                        "successful top-level actions (an earlier listener edits the tracks "
+                        "from inside its callback)",
+                "key": "C20/count/later-listener/reentrant-earlier-listener",
+                "replay": {"kind": "reentrant", "note": "re-run with a fresh generator"}})
+            return
 
 
 def floors(tier):
@@ -49,11 +122,17 @@ def floors(tier):
     for c in ("UserAddNode", "UserAddEdge", "UserDeleteEdge", "UserDeleteNode",
               "UserSwapPredecessors", "UserUpdateSegmentation", "UserUpdateNodeAttrs"):
         f[f"ok-{c}"] = 30
-        f[f"refused-{c}"] = 10
+        f[f"refused-{c, "reentrant-listener-cases": 30}"] = 10
     return f
 
 
 def replay(doc):
     if doc.get("kind") == "pytest":
         return common.replay_pytest(doc, PROP)
+    if doc.get("kind") == "reentrant":
+        import random
+
+        acc = common.new_acc()
+        reentrant_listener_cases(random.Random(7), acc, 200)
+        return acc["violations"]
     return common.replay_sessions(doc, make_monitors)
